@@ -218,6 +218,20 @@ def hasDup : List Proxy → Bool
   | [] => false
   | x :: xs => xs.any (fun y => y.pt == x.pt && y.name == x.name) || hasDup xs
 
+def tsJson (g : Graph) (rows : List Row) : Json :=
+  jOfList (fun (r : Row) =>
+    let outs : List String := match g.task? r.name with
+      | some t => (t.outputs.filter fun o => r.outs.contains o.message).map (·.trigger)
+      | none => []
+    Json.arr #[jOfInt r.pt, Json.str r.name, jOfList jOfNat [1], Json.str r.status.str, jOfNat r.submitNum,
+      Json.bool false,
+      jOfList (fun (t : String) => Json.arr #[Json.str t, Json.bool false]) (sortBy (· < ·) outs)])
+    (sortBy (fun (a b : Row) => a.pt < b.pt || (a.pt == b.pt && a.name < b.name)) rows)
+
+def poolRowsJson (rows : List Proxy) : Json :=
+  jOfList (fun (x : Proxy) => Json.arr #[jOfInt x.pt, Json.str x.name, jOfList jOfNat x.flows,
+    Json.str x.status.str, Json.bool x.held]) (sortBy proxyLt rows)
+
 def obsJson (g : Graph) (s : State) : Json :=
   Json.mkObj [
     ("pool", jOfList (proxyJson g) (sortBy proxyLt s.pool)),
@@ -241,15 +255,10 @@ def obsJson (g : Graph) (s : State) : Json :=
     ("crashed", Json.bool s.crashed),
     ("abs_done", jOfList (fun (a : Atom) => Json.arr #[jOfInt a.pt, Json.str a.task, Json.str a.out])
       (sortBy (fun a b => atomLt (a, false) (b, false)) s.absDone)),
-    ("ts", if s.stop.isSome then Json.null else
-      jOfList (fun (r : Row) =>
-        let outs : List String := match g.task? r.name with
-          | some t => (t.outputs.filter fun o => r.outs.contains o.message).map (·.trigger)
-          | none => []
-        Json.arr #[jOfInt r.pt, Json.str r.name, jOfList jOfNat [1], Json.str r.status.str, jOfNat r.submitNum,
-          Json.bool false,
-          jOfList (fun (t : String) => Json.arr #[Json.str t, Json.bool false]) (sortBy (· < ·) outs)])
-        (sortBy (fun (a b : Row) => a.pt < b.pt || (a.pt == b.pt && a.name < b.name)) s.cdb.rows)),
+    ("ts", if s.stop.isSome then Json.null else tsJson g s.cdb.rows),
+    ("dead_db", match s.deadDb with
+      | none => Json.null
+      | some d => Json.mkObj [("pool", poolRowsJson d.pool), ("ts", tsJson g d.rows)]),
     ("db", match s.db with
       | none => Json.null
       | some rows => jOfList (fun (x : Proxy) => Json.arr #[jOfInt x.pt, Json.str x.name, jOfList jOfNat x.flows,
